@@ -3,7 +3,7 @@
    [handle] is the handler after the four proposed repairs ([handle_v repaired]);
    [handle_v original] is the code as found. [lv] stands for the parsers of
    external crates that the model does not re-state (quantified over). *)
-From Coq Require Import NArith List Bool.
+From Coq Require Import NArith List Bool Permutation.
 From RV Require Import Http.DispatchText Http.DispatchModel Http.DispatchProofs Http.ConcModel Http.ConcProofs Http.WireModel Http.WireProofs Http.RouterListModel Http.RouterListProofs.
 Import ListNotations.
 Local Open Scope N_scope.
@@ -409,6 +409,26 @@ Theorem C12_router_list_unguarded_pc_partial : forall sb so rs,
   sort_routers false sb so rs = expected_result sb so (N.of_nat (List.length rs)).
 Proof. exact sort_routers_unguarded_partial. Qed.
 Print Assumptions C12_router_list_unguarded_pc_partial.
+
+(* The ORDER of the rows. For every sort_by value (one of the keys or not), every sort_order and every population of
+   routers (any states, any sysName / sysDesc): the rows of the page are a permutation of the population's rows - every
+   router once, paired with its own key [row_key] - and the keys are non-decreasing down the page, up the page for
+   sort_order=desc ([in_reading_order]). Exact up to the order of rows with equal keys (sort_unstable_by). *)
+Theorem C12_router_list_sorted_by_key : forall sb so rs,
+  exists keyed rows,
+    keyed_from true sb 0 rs = Some keyed /\
+    map snd keyed = map N.of_nat (seq 0 (List.length rs)) /\
+    page_rows true sb so rs = Some rows /\
+    Permutation keyed rows /\
+    sortedb (in_reading_order so (map fst rows)) = true.
+Proof. exact page_rows_sorted_by_key. Qed.
+Print Assumptions C12_router_list_sorted_by_key.
+
+(* The population the engine's corpus uses to tell the keys apart: for every two different judged keys k1, k2, sorting
+   it by k2 leaves the k1 column out of order - a key that sorts on the wrong metric cannot pass. *)
+Theorem C12_router_list_keys_told_apart : all_keys_disagree rl_discriminating = true.
+Proof. exact discriminating_population. Qed.
+Print Assumptions C12_router_list_keys_told_apart.
 
 (* non-vacuity: the mixed router has 3 peers up, 2 EoR capable (66%), 1 dumping (50%); the population of all six named
    states is listed under the percentage key in descending order; a bogus key is a 400 *)
